@@ -31,7 +31,7 @@ LEVEL = "model_checking"
 RULE = ("topologies: 2 topics (Imu, Mag) + params; subscriber sets = every multiset of <= 3 subscribers from {plain on a, plain on b, relay a->b} (incl. none, two on one topic); "
         "parameter nodes {0,1,2} each following or not following the parameter topic; logger present/absent; periodic publishers with integer periods (1,2),(2,3),(1,1) or none. "
         "events: pub a, pub b, wrong type on a, set_param node, set_param logger/dt, run +1, run +2; all words to the depth; tie-break schedules with <= k deviations. "
-        "estimator: all words over (sensor, delta t) with delta t in {-1,0,1,4,5,6,20} ms. a state = (registry, queue, inboxes) after an event; non-trivial = word with a delivery")
+        "estimator: all words over (sensor, delta t) with delta t in {-20,-1,0,1,4,5,6,20} ms. a state = (registry, queue, inboxes) after an event; non-trivial = word with a delivery")
 ASSUMPTIONS = ["simpy's event queue is permuted only among events tied at exactly the same (time, priority)", "topologies and words beyond the bounds are not covered"]
 
 
@@ -335,7 +335,7 @@ class Spy:
         return dict(constants=constants, initialize=initialize, predict=predict, get_state=get_state, correct_accel=correct_accel, correct_mag=correct_mag)
 
 
-DTS = [-1e-3, 0.0, 1e-3, 4e-3, 5e-3, 6e-3, 20e-3]
+DTS = [-20e-3, -1e-3, 0.0, 1e-3, 4e-3, 5e-3, 6e-3, 20e-3]
 
 
 def run_est(initialize, dt_min, word):
@@ -434,7 +434,7 @@ class _Est:
     chunks = 1
 
     def cases(self, tier, seed):
-        return [dict(sub="est", tier=tier, initialize=i, dt_min=d, first=f) for i in (True, False) for d in ((5e-3, 5e-3), (20e-3, 20e-3), (5e-3, 20e-3), (20e-3, 5e-3)) for f in range(14)]
+        return [dict(sub="est", tier=tier, initialize=i, dt_min=d, first=f) for i in (True, False) for d in ((5e-3, 5e-3), (20e-3, 20e-3), (5e-3, 20e-3), (20e-3, 5e-3)) for f in range(16)]
 
     def run(self, case):
         return explore_est(case)
